@@ -131,9 +131,13 @@ class ConstLoss(gpytorch.mlls.AddedLossTerm):
 
 
 class GP(gpytorch.models.ExactGP):
-    def __init__(self, x, y, lik, mean, kern, added=()):
+    def __init__(self, x, y, lik, mean, kern, added=(), shared_handle=False):
         super().__init__(x, y, lik)
         self.mean_module, self.covar_module = mean, kern
+        if shared_handle:
+            # the pattern of gpytorch's own SGPR example: keep a handle to the inner kernel next to the outer one
+            inner = kern.base_kernel if isinstance(kern, DyadicKernel) else kern
+            self.base_covar_module = inner.base_kernel
         self._added = list(added)
         for i, (where, _) in enumerate(self._added):
             (self if where == "model" else self.covar_module).register_added_loss_term("verif_loss_%d" % i)
@@ -329,6 +333,10 @@ def gen_case(rng, tier, family):
         c.update(n=rng.randint(1, 3), tasks=2, rank=rng.choice([0, 1]), noise_rank=rng.choice([0, 1]),
                  kernel=rng.choice(["rbf", "matern25", "rq"]), mean="constant", lik="multitask", added=[],
                  priors=[p for p in c["priors"] if p["target"] in ("lengthscale", "alpha")])
+    if family == "shared":
+        c.update(kernel=rng.choice(["scale_rbf", "scale_matern"]), shared_handle=True, n=rng.randint(2, 3),
+                 priors=[dict(target="lengthscale", spec=gen_prior(rng), closure="id", by_name=rng.random() < 0.5)]
+                 + [p for p in c["priors"] if p["target"] in ("outputscale", "noise")])
     if family == "grad":
         c.update(n=rng.randint(2, 4), lik=rng.choice(["gaussian", "fixed+learned"]),
                  kernel=rng.choice(["rbf", "matern25", "rq", "scale_rbf", "ard_rbf", "rbf+linear"]), fast_log_prob=rng.random() < 0.5)
@@ -408,7 +416,7 @@ def build(case):
         if full:
             val = val + 0.25 * torch.arange(torch.Size(full).numel(), dtype=torch.float64).reshape(full)
         added.append((a["where"], val))
-    model = GP(X, y, lik, mean, kern, added)
+    model = GP(X, y, lik, mean, kern, added, shared_handle=bool(case.get("shared_handle")))
     attach_priors(model, lik, case)
     return model, lik, X, y
 
@@ -598,10 +606,10 @@ def grad_plan(case):
 def run(out, ctx):
     tier, seed = ctx["tier"], ctx["seed"]
     rng = random.Random(seed * 104729 + 2)
-    nc = dict(single=60, batch=14, multitask=10, sum=8, grad=6) if tier == "quick" else \
-        dict(single=500, batch=150, multitask=100, sum=80, grad=40)
+    nc = dict(single=56, batch=14, multitask=10, shared=4, sum=8, grad=6) if tier == "quick" else \
+        dict(single=500, batch=150, multitask=100, shared=30, sum=80, grad=40)
     nc = {k: max(1, int(v * ctx.get("scale", 1.0))) for k, v in nc.items()}   # scale < 1 only in builder sensitivity runs
-    cases = [gen_case(rng, tier, fam) for fam in ("single", "batch", "multitask") for _ in range(nc[fam])]
+    cases = [gen_case(rng, tier, fam) for fam in ("single", "batch", "multitask", "shared") for _ in range(nc[fam])]
     sums = [gen_sum_case(rng, tier) for _ in range(nc["sum"])]
     grads = [gen_case(rng, tier, "grad") for _ in range(nc["grad"])]
     coq, owner = [], []
@@ -624,7 +632,7 @@ def run(out, ctx):
                 "Gamma / LogNormal / Normal / SmoothedBox priors on lengthscale, outputscale, noise, mean constant, ... through "
                 "identity / log / square closures; 0-2 added-loss terms registered on the model or on the kernel; "
                 "fast_computations.log_prob on/off), batched models (5 parameter/data broadcast patterns incl. a module batch shape shorter than the data batch shape, every batch element "
-                "against its own dense objective), Kronecker multitask (2 tasks, num_data = n*t), IndependentModelList + "
+                "against its own dense objective), Kronecker multitask (2 tasks, num_data = n*t), models that keep a second handle to the inner kernel (the SGPR example's base_covar_module pattern) with a prior on it, IndependentModelList + "
                 "SumMarginalLogLikelihood (2-3 members).  ExactMarginalLogLikelihood and LeaveOneOutPseudoLikelihood are both "
                 "compared on every single-output case.  non-trivial = n>=2 and the objective has at least one prior or added "
                 "term, or n>=3" % (5 if tier == "quick" else 7))
@@ -669,6 +677,8 @@ def run(out, ctx):
                 if not C.close(vals[b], d["value"], TOL, TOL):
                     key = "%s:%s%s%s" % (lab, "priors" if case["priors"] else "noprior", "+added" if case["added"] else "",
                                          ":" + case["pattern"] if fam == "batch" else "")
+                    if fam == "shared":
+                        key = "%s:shared-module-handle:priors" % kind
                     out.fail(key, "%s differs from its dense definition" % ("exact MLL" if kind == "mll" else "LOO pseudo-likelihood"),
                              dict(case=_clean(case), objective=kind, batch_element=b), impl=vals[b], model=float(d["value"]))
                     break
